@@ -364,3 +364,75 @@ def fanout(ctx):
     obs.append(Ob(r, "no-other-growth", not others, "outside the drain loop the main loop adds no plans"))
     obs.append(Ob(r, "step-cost-note", True, "look-ahead scans inside AsciiPlan::step / unbeatable_strike are guarded by counters (listed, not decided)", info=True))
     return obs
+
+
+def cost_write(ctx):
+    """COST-WRITE: in the integer-priced planner modes (ASCII single characters, Base256) every whole codeword added
+    to a plan's price is also added to its symbol-fill counter (`ctx.write`) in the same straight-line block, so the
+    end-of-data rules of later modes are judged against the right fill level."""
+    r = "COST-WRITE"
+    f = ctx.facts()
+    obs = []
+
+    def lits(e, suffix, argi):
+        out = []
+        for x in T.sx_walk(e):
+            if isinstance(x, tuple) and x[0] == "call" and x[1].endswith(suffix) and len(x[2]) > argi and x[2][argi][0] == "lit" and isinstance(x[2][argi][1], int):
+                out.append(x[2][argi][1])
+        return out
+
+    def check_blocks(fn_suffix, label):
+        name = _fn(f, fn_suffix, r)
+        sts = T.stmts(f.thir[name]["body"], {"__noinline__": True})
+        n = [0]
+
+        def visit(stl):
+            costs = writes = 0
+            for s in stl:
+                if s[0] == "expr":
+                    e = s[1]
+                    if e[0] == "call" and e[1].endswith("::add_assign") and e[2][0][0] == "field" and e[2][0][2] == "cost" and e[2][1][0] == "lit":
+                        costs += e[2][1][1]
+                    if e[0] == "call" and e[1].endswith("ContextInformation::write") and e[2][1][0] == "lit":
+                        writes += e[2][1][1]
+                elif s[0] == "if":
+                    visit(s[2])
+                    visit(s[3])
+                elif s[0] in ("for", "loop"):
+                    visit(s[3] if s[0] == "for" else s[1])
+            if costs or writes:
+                n[0] += 1
+                obs.append(Ob(r, "%s:block%d" % (label, n[0]), costs == writes, "%s: a block prices %d whole codeword(s) and books %d into the symbol-fill counter" % (label, costs, writes),
+                              site=stl[0][-1] if stl and isinstance(stl[0][-1], str) else None))
+        visit(sts)
+        return n[0]
+    k1 = check_blocks("Base256Plan<T> as encodation::planner::Plan>::step", "Base256Plan::step")
+    k2 = check_blocks("AsciiPlan<T> as encodation::planner::Plan>::step", "AsciiPlan::step")
+    # Base256Plan::with_written: the initial price (length byte) is booked too
+    name = _fn(f, "Base256Plan::with_written", r)
+    raw = f.thir[name]["body"]
+    ifs = [x for x in T.exprs(raw, "If")]
+    ok = False
+    det = None
+    if ifs:
+        x = ifs[0]
+
+        def branch(b):
+            b = T.strip(b) if b["k"] != "Block" else b
+            if b["k"] == "Block":
+                w = sum(c["args"][1].get("int", 0) for c in T.calls(b) if T.canon(T.callee_of(c)).endswith("ContextInformation::write") and T.strip(c["args"][1]).get("k") == "Lit")
+                v = T.strip(b["expr"]).get("int") if "expr" in b else None
+                return v, w
+            return b.get("int"), 0
+        tv, tw = branch(x["then"])
+        ev, ew = branch(x["else"]) if "else" in x else (None, 0)
+        det = {"then": (tv, tw), "else": (ev, ew)}
+        ok = tv is not None and ev is not None and tv == tw and ev == ew
+    obs.append(Ob(r, "Base256Plan::with_written", ok, "a new Base256 run prices its length codeword and books it into the symbol-fill counter", detail=det))
+    # the second length codeword: mode_switch_cost adds 1 <-> write_unlatch books 1 (thresholds compared by B256-SYNC)
+    wu = _fn(f, "Base256Plan<T> as encodation::planner::Plan>::write_unlatch", r)
+    wsts = T.stmts(f.thir[wu]["body"], {"__noinline__": True})
+    w = [x for st in T.stmt_walk(wsts) for e in T.stmt_exprs(st) for x in T.sx_calls(e, "ContextInformation::write")]
+    obs.append(Ob(r, "Base256Plan::write_unlatch", len(w) == 1 and w[0][2][1] == ("lit", 1), "leaving a long Base256 run books the second length codeword (1) into the symbol-fill counter"))
+    obs += floor(obs, r, 5, "cost/write pairs")
+    return obs
